@@ -182,7 +182,8 @@ class PinnedCtx(Ctx):
         self._model = model
 
     def real(self, name):
-        v = Sym(p_const(Fraction(self._model[name])))
+        # an input the dry run did not discover (it ended early) is 0 here, exactly as in the float run (ConcreteCtx.real)
+        v = Sym(p_const(Fraction(self._model.get(name, 0))))
         self.input_vars[name] = v
         return v
 
